@@ -510,7 +510,7 @@ func runCheck(prop, tier, only string, jobs, seed int, noReplay bool, dump strin
 			}
 			ev.Coverage.TracesValidated++
 			if !strings.HasPrefix(s.result, "reproduced") {
-				if s.ob.Abstract != "" {
+				if strings.HasPrefix(s.ob.Abstract, "sin/cos") {
 					// a model of an over-approximated query that does not replay is expected to be spurious:
 					// undecided (reported), neither a violation nor a defect of the check
 					ev.Coverage.Undecided = append(ev.Coverage.Undecided, fmt.Sprintf("%s[%s] %s: model did not replay natively (%s; %s)", s.ob.Harness, s.ob.Case, s.ob.Msg, s.ob.Abstract, s.result))
@@ -603,7 +603,9 @@ func runTask(l *loaded, t *task, tier, seed int, dump string) *taskResult {
 	ex.Tier = tier
 	ex.Seed = seed
 	ex.Deadline = time.Now().Add(15 * time.Minute)
+	ex.SplitBudgetSecs = 300
 	if tier == 1 {
+		ex.SplitBudgetSecs = 3600
 		ex.FullMs = 120000
 		ex.Deadline = time.Now().Add(2 * time.Hour)
 	}
